@@ -17,6 +17,7 @@ import (
 	"runtime"
 	"slices"
 	"strings"
+	"sync"
 
 	"golang.org/x/tools/go/ssa"
 )
@@ -100,9 +101,7 @@ func (fr *frame) get(key ssa.Value) value {
 		return fr.i.global(key)
 	}
 	if k, ok := fr.info.slot[key]; ok {
-		if r := fr.env[k]; r != nil {
-			return r
-		}
+		return fr.env[k]
 	}
 	panic(fmt.Sprintf("get: no value for %T: %v in %s", key, key.Name(), fr.fn))
 }
@@ -263,8 +262,21 @@ func lookupMethod(i *interpreter, typ types.Type, meth *types.Func) *ssa.Functio
 	case errorType:
 		return i.errorMethods[meth.Id()]
 	}
-	return i.prog.LookupMethod(typ, meth.Pkg(), meth.Name())
+	k := methKey{typ, meth}
+	if f, ok := methCache.Load(k); ok {
+		return f.(*ssa.Function)
+	}
+	f := i.prog.LookupMethod(typ, meth.Pkg(), meth.Name())
+	methCache.Store(k, f)
+	return f
 }
+
+type methKey struct {
+	t types.Type
+	m *types.Func
+}
+
+var methCache sync.Map
 
 func (i *interpreter) runtimeError(msg string) value {
 	return iface{t: i.runtimeErrorString, v: msg}
@@ -567,6 +579,7 @@ func selectOp(fr *frame, instr *ssa.Select) value {
 // interface method lookup if needed.
 func prepareCall(fr *frame, call *ssa.CallCommon) (fn value, args []value) {
 	v := fr.get(call.Value)
+	args = make([]value, 0, len(call.Args)+1)
 	if call.Method == nil {
 		// Function call.
 		fn = v
@@ -681,7 +694,16 @@ func callSSA(i *interpreter, caller *frame, callpos token.Pos, fn *ssa.Function,
 	}
 
 	fr.info = i.sh.fnInfo(fn)
-	fr.env = make([]value, fr.info.n)
+	// Register files are pooled per function and reused without clearing: SSA guarantees every
+	// value is defined before it is used (large functions have thousands of registers).
+	if e, ok := fr.info.pool.Get().(*[]value); ok {
+		fr.env = *e
+		defer fr.info.pool.Put(e)
+	} else {
+		s := make([]value, fr.info.n)
+		fr.env = s
+		defer fr.info.pool.Put(&s)
+	}
 	fr.block = fn.Blocks[0]
 	fr.locals = make([]value, len(fn.Locals))
 	for k, l := range fn.Locals {
@@ -841,6 +863,7 @@ func doRecover(caller *frame) value {
 type fnInfo struct {
 	slot map[ssa.Value]int32
 	n    int
+	pool sync.Pool
 }
 
 func (sh *shared) fnInfo(fn *ssa.Function) *fnInfo {
